@@ -302,6 +302,11 @@ def late_start_cases(tier, rng):
         # delivery goroutine holds the session when the peer goes away, and begins Data after the Logout
         cases.append("\t".join(["sched", g.cfg_str(dict(lmtp=lm, lmtpsess=sess)), "NS=;MAIL=;RCPT=;DATA=;AUTH=;SASL=;HS=",
                                 ";".join(["latestart", "holddeliver", seg(*pre, b"BDAT 0\r\n"), "eof"])]))
+        # Server.Close from another goroutine at the moment the command loop reads a command line (`closeonread:<marker>`): the handler finds
+        # the session gone; it must not dereference it (a recovered panic before the repair recorded in known_findings.json)
+        for marker, lines in ((b"MAIL", pre[:2]), (b"RCPT", pre[:3]), (b"DATA", pre + [b"DATA\r\n"])):
+            cases.append("\t".join(["sched", g.cfg_str(dict(lmtp=lm, lmtpsess=sess)), "NS=;MAIL=;RCPT=;DATA=;AUTH=;SASL=;HS=",
+                                    ";".join(["closeonread:" + hx(marker), seg(*lines[:-1]), "idle", seg(lines[-1]), "eof"])]))
     return cases
 
 
